@@ -37,6 +37,7 @@ func vRunCase(c vCase) (out vOut) {
 	vRealtime = c.Realtime
 	vTier = c.Tier
 	vHeldRanks, vMainGoid, vNoBlockMsg, vSpawned = nil, vGoid(), "", nil
+	vGoLive = false
 	vRaceMode, vRaceStop = c.Race, make(chan struct{})
 	defer func() {
 		if vRaceMode {
